@@ -195,6 +195,35 @@ def lua_stack_balance(rep: C.Report) -> None:
         ob.detail += f"{type(e).__name__}: {e}"
 
 
+SIG = "bol: bool, wsp: bool, linenum: int, pre_parse: bool, supp: bool, sec: str, has_sec: bool, junk: str, smc: int, pstack: bool"
+ARGS = "bol, wsp, linenum, pre_parse, supp, sec, has_sec, junk, smc, pstack"
+COND = """
+def {tag}({SIG}) -> bool:
+    \"\"\"
+    pre: len(junk) <= 3 and len(sec) <= 3
+    post: _
+    \"\"\"
+    havoc({ARGS})
+    return run_{kind}(ctx, {docs}[{i}]{kw}) == {exp}[{i}]
+
+
+def replay_{tag}({ARGS}):
+    return find_history("{kind}", {i}, {pre})
+"""
+
+
+def gen(quick: bool) -> str:
+    out = []
+    for kind, n in (("parse", 7 if quick else 17), ("expand", 3 if quick else 8)):
+        for i in range(n):
+            for pre in (False, True):
+                tag = f"hv_{kind}_{i}{'_pre' if pre else ''}"
+                exp = ("EXP_PARSE" if kind == "parse" else "EXP_EXPAND") + ("_PRE" if pre else "")
+                docs = "PARSE_DOCS" if kind == "parse" else "EXPAND_DOCS"
+                out.append(COND.format(tag=tag, SIG=SIG, ARGS=ARGS, kind=kind, docs=docs, i=i, kw=", pre_expand=True" if pre else "", exp=exp, pre=pre))
+    return "\n".join(out)
+
+
 def run(rep: C.Report) -> None:
     quick = C.tier() == "quick"
     rep.explanation = (
@@ -216,12 +245,14 @@ def run(rep: C.Report) -> None:
         rep,
         H,
         {
-            "^hv_parse": dict(name="Ob1 havoc then start_page+parse == fresh context", engine="E4 havoc via CrossHair", functions=["core.py:Wtp.start_page", "core.py:Wtp.parse", "parser.py:parse_encoded"], bounds="all values of 10 symbolic state parameters; 7 catalogue documents x {plain, pre_expand}"),
-            "^hv_expand": dict(name="Ob2 havoc then start_page+expand == fresh context", engine="E4 havoc via CrossHair", functions=["core.py:Wtp.start_page", "core.py:Wtp.expand"], bounds="same state parameters; 3 template-heavy documents x {plain, pre_expand}"),
+            "^hv_parse": dict(name="Ob1 havoc then start_page+parse == fresh context", engine="E4 havoc via CrossHair", functions=["core.py:Wtp.start_page", "core.py:Wtp.parse", "parser.py:parse_encoded"], bounds=f"all values of 10 symbolic state parameters; {7 if quick else 17} catalogue documents x {{plain, pre_expand}}"),
+            "^hv_expand": dict(name="Ob2 havoc then start_page+expand == fresh context", engine="E4 havoc via CrossHair", functions=["core.py:Wtp.start_page", "core.py:Wtp.expand"], bounds=f"same state parameters; {3 if quick else 8} template-heavy documents x {{plain, pre_expand}}"),
         },
         timeout=60 if quick else 300,
+        src=open(H).read() + "\n" + gen(quick),
         twins=True,
         twin_timeout=30,
+        batch=2,
     )
     alias_check(rep)
     lua_stack_balance(rep)
